@@ -64,6 +64,14 @@ def check(run):
     ups.append(["uposeidon 3 8 57 0"])                 # empty input: Err
     ups.append(["uposeidon 3 8 57 0 0x1"])             # width without parameters: Err
     run.rules.append("poseidon: also inputs equal to the negated first-round constants (a zero state lane after the first addition), one lane / two lanes / all lanes per arity; uposeidon: random (t in 2..6, RF in {2,4,6,8}, RP in 0..12, skip in 0..2) parameter records through zerokit_utils::Poseidon::from")
+    # parameter TABLES (the public constructor takes any list of rows): the standard rows in descending order, a table with gaps,
+    # a shuffled one, one with a repeated width — the row that matches the input count must be found wherever it stands
+    STD = [(2, 8, 56, 0), (3, 8, 57, 0), (4, 8, 56, 0), (5, 8, 60, 0), (6, 8, 60, 0)]
+    tabs = [list(reversed(STD)), [STD[0], STD[2], STD[3]], [STD[3], STD[0], STD[4], STD[1]], [STD[1]], [STD[2], STD[2]]]
+    for tab in tabs:
+        rows = ",".join(":".join(map(str, r)) for r in tab)
+        for n in range(1, 6):
+            ups.append([f"uposeidon_rows {rows} " + " ".join(hex(rng.getrandbits(200)) for _ in range(n))])
     run.differential("poseidon-generic-params", ups)
 
     # ---- byte-level and FFI entry points
